@@ -28,7 +28,7 @@ type c13Case struct {
 func init() {
 	engine.Register(&engine.Check{
 		ID: "C13", Level: "exploration",
-		Rule:        "every sequence (order matters to the scan) of 1..6 (quick) / 1..7 (thorough) points on the 3x3 grid and (thorough) every set of <=6 points on the 4x4 grid; layouts XY/XYZ/XYM/XYZM with a unique tag in the extra ordinates of every input point; the >50-point path: each small input padded to 51, 52 and 60 points with copies of one of its own points, with all of its own points in rotation, and with a 4x4 filler grid; every sequence of 4..5 (thorough 6) points on the 6x2 and 2x6 grids (long collinear runs on the lowest row / leftmost column in every input order); plus 51..200-point inputs on lattices from 5x5 (maximally degenerate) to 2^20; plus 51..200 points in convex position (parabola arc, lattice convex chain) listed ascending, descending, outside-in and interleaved under 8 symmetries; plus a 64-point block with every pair of outliers from a half-integer ring around it; ConvexHull (MultiPoint) and ConvexHullFlat. Oracle = strict monotone-chain hull in rational arithmetic: result kind (Point / 2-point LineString / Polygon) from the number of distinct, non-collinear inputs; vertex set = exact extreme points; each vertex bit-equal to an input coordinate incl. tags; ring closed, one orientation for all inputs, no collinear vertex; input slice incl. spare capacity unchanged. distinct_nontrivial = distinct inputs with >=2 distinct points Also: 4-5 point sets whose directions from the lowest point differ by a cross product of 1 or 2 at magnitudes up to 2^20, every permutation x 8 symmetries x 2 translations. Round 7: 60 points in convex position with extra ordinates that echo the coordinates of one directional extreme, for every ordered pair of the eight extremes. Round 9: rays through the lowest point in every primitive direction with 3 or 4 points and one off-ray point, every input order.",
+		Rule:        "every sequence (order matters to the scan) of 1..6 (quick) / 1..7 (thorough) points on the 3x3 grid and (thorough) every set of <=6 points on the 4x4 grid; layouts XY/XYZ/XYM/XYZM with a unique tag in the extra ordinates of every input point; the >50-point path: each small input padded to 51, 52 and 60 points with copies of one of its own points, with all of its own points in rotation, and with a 4x4 filler grid; every sequence of 4..5 (thorough 6) points on the 6x2 and 2x6 grids (long collinear runs on the lowest row / leftmost column in every input order); plus 51..200-point inputs on lattices from 5x5 (maximally degenerate) to 2^20; plus 51..200 points in convex position (parabola arc, lattice convex chain) listed ascending, descending, outside-in and interleaved under 8 symmetries; plus a 64-point block with every pair of outliers from a half-integer ring around it; ConvexHull (MultiPoint) and ConvexHullFlat. Oracle = strict monotone-chain hull in rational arithmetic: result kind (Point / 2-point LineString / Polygon) from the number of distinct, non-collinear inputs; vertex set = exact extreme points; each vertex bit-equal to an input coordinate incl. tags; ring closed, one orientation for all inputs, no collinear vertex; input slice incl. spare capacity unchanged. distinct_nontrivial = distinct inputs with >=2 distinct points Also: 4-5 point sets whose directions from the lowest point differ by a cross product of 1 or 2 at magnitudes up to 2^20, every permutation x 8 symmetries x 2 translations. Round 7: 60 points in convex position with extra ordinates that echo the coordinates of one directional extreme, for every ordered pair of the eight extremes. Round 9: rays through the lowest point in every primitive direction with 3 or 4 points and one off-ray point, every input order. Round 10: 51 and 60 collinear points in every primitive direction with |dx|,|dy| <= 3, four input orders.",
 		Run:         c13Run,
 		Replay:      func(c *engine.Ctx, kind string, raw json.RawMessage) { c13Exec(c, decodeCase[c13Case](raw)) },
 		Assumptions: []string{"integer / half-integer grid inputs (all predicates exact)"},
